@@ -336,8 +336,9 @@ def run(ctx: Ctx):
 
 
 META = {
-    "technique": "abstract interpretation with symbolic terms of the three PSD recurrences and of psd_mesoporous over every "
-                 "selectable window; algebraic normal form of the Kelvin radius",
+    "technique": "abstract interpretation with symbolic terms of the three PSD recurrences and of psd_mesoporous over every sele"
+                 "ctable window and on a concrete pressure grid (points used); algebraic normal form of the Kelvin radius; refus"
+                 "al / extrapolation rules of the KJS and standard-isotherm models",
     "level_text": "Static: the three recurrences are interpreted on a symbolic 4-point branch (all quantities symbols) and the "
                   "resulting terms are normalised against 2(t+r), V_(k+1)-V_k (zero thickness) and distribution*dw = volume; "
                   "psd_mesoporous is interpreted for every window its limits can select to fix the anchor of the cumulative "
